@@ -17,7 +17,7 @@ while i < len(args):
     else:
         flt = args[i]; i += 1
 missed = []
-names = [n for n in sorted(os.listdir(os.path.join(V, "seeded"))) if flt in n]
+names = [n for n in sorted(os.listdir(os.path.join(V, "seeded"))) if flt in n and os.path.isdir(os.path.join(V, "seeded", n))]
 for idx, name in enumerate(names):
     if idx % lane[1] != lane[0]:
         continue
